@@ -131,13 +131,15 @@ pub fn filter_file_rule(
   let mut ret = smallvec![grep.clone()];
   if let Some(injected) = lang.injectable_sg_langs() {
     let docs = grep.inner.get_injections(|s| SgLang::from_str(s).ok());
-    let inj = injected.filter_map(|l| {
-      let doc = docs.iter().find(|d| *d.lang() == l)?;
-      let grep = AstGrep { inner: doc.clone() };
-      collect_file_stats(path, l, configs, trace).ok()?;
-      Some(grep)
-    });
-    ret.extend(inj)
+    for l in injected {
+      // one language can be injected under several names (`<script>`, `<script lang="js">`,
+      // `<script lang="javascript">`): every one of its documents is scanned
+      let mut of_lang = docs.iter().filter(|d| *d.lang() == l).peekable();
+      if of_lang.peek().is_none() || collect_file_stats(path, l, configs, trace).is_err() {
+        continue;
+      }
+      ret.extend(of_lang.map(|doc| AstGrep { inner: doc.clone() }));
+    }
   }
   Ok(ret)
 }
